@@ -269,6 +269,23 @@ impl Monitor for C16m {
             if partial {
                 acc.count("partial_fills_on_fee_pools");
             }
+            // the other-amount threshold applies to what the trader actually receives / pays
+            if (vout > got || paid > vin) && w.r.gen_range(0..3) == 0 {
+                use crate::monitors::swapmon::with_threshold;
+                let x = if c.exact_in { got as u64 } else { paid as u64 };
+                let (ok_thr, bad_thr) = if c.exact_in { (x, x.checked_add(1)) } else { (x, x.checked_sub(1)) };
+                let (o, _) = w.simulate(&obs.pre, &with_threshold(&obs.ix, ok_thr));
+                acc.count("swap_threshold_probes");
+                if !o.ok() {
+                    fail(acc, "threshold_rejected_wrongly", format!("threshold {ok_thr} equal to what the trader {} ({x}) was rejected: {:?}", if c.exact_in { "receives" } else { "pays" }, o.err));
+                }
+                if let Some(t) = bad_thr {
+                    let (o, _) = w.simulate(&obs.pre, &with_threshold(&obs.ix, t));
+                    if o.ok() {
+                        fail(acc, "threshold_not_enforced", format!("trader {} {x} (vault side {}) but threshold {t} was accepted", if c.exact_in { "receives" } else { "pays" }, if c.exact_in { vout } else { vin }));
+                    }
+                }
+            }
             acc.situation(format!("{name}:{}:{}:infee{}:outfee{}:part{}", c.exact_in, c.a_to_b, (paid > vin) as u8, (vout > got) as u8, partial as u8));
             return;
         }
@@ -371,7 +388,7 @@ impl Monitor for C16m {
 
 pub fn run(tier: Tier, seed: u64) -> i32 {
     let mut rep = Report::new("C16", tier, seed);
-    rep.rule = "function level: Anchor calculate_transfer_fee_{excluded,included}_amount (InterfaceAccount<Mint> over a real Token-2022 mint buffer with TransferFeeConfig and neighbouring extensions) and the Pinocchio copies (AccountInfo over a loader-format buffer, own TLV parser), all fee configs (0..=10000 bp, max fee 0..u64::MAX, older/newer epoch around the switch) x hostile amounts: excluded.amount + fee == amount, fee == what spl-token-2022's own TransferFee::calculate_fee withholds for the epoch fee chosen by get_epoch_fee, included(y) delivers >= y and included(y)-1 does not, reported fee fields, round trip, Anchor == Pinocchio. instruction level (Token-2022 pools with fees on A, B or both; real Token-2022 processor): swaps - vault receives >= curve input (hook trace), vault pays exactly the curve output, trader's request is minimal, within amount/maximum, withheld amounts equal the token program's, Traded event equals the amounts moved; increase/decrease/by-amounts - vault receives >= exact deposit, pays exactly the exact withdrawal, maxima/minima apply to what the owner pays/receives (probed), liquidity events equal the amounts moved. distinct = (fee class, max class, amount magnitude, epoch side) and (instruction, fee on in/out, partial)".into();
+    rep.rule = "function level: Anchor calculate_transfer_fee_{excluded,included}_amount (InterfaceAccount<Mint> over a real Token-2022 mint buffer with TransferFeeConfig and neighbouring extensions) and the Pinocchio copies (AccountInfo over a loader-format buffer, own TLV parser), all fee configs (0..=10000 bp, max fee 0..u64::MAX, older/newer epoch around the switch) x hostile amounts: excluded.amount + fee == amount, fee == what spl-token-2022's own TransferFee::calculate_fee withholds for the epoch fee chosen by get_epoch_fee, included(y) delivers >= y and included(y)-1 does not, reported fee fields, round trip, Anchor == Pinocchio. instruction level (Token-2022 pools with fees on A, B or both; real Token-2022 processor): swaps - vault receives >= curve input (hook trace), vault pays exactly the curve output, trader's request is minimal, within amount/maximum, withheld amounts equal the token program's, Traded event equals the amounts moved, and for a third of them the other-amount threshold is probed on clones (equal to what the trader receives/pays: accepted; one unit stricter: refused); increase/decrease/by-amounts - vault receives >= exact deposit, pays exactly the exact withdrawal, maxima/minima apply to what the owner pays/receives (probed), liquidity events equal the amounts moved. distinct = (fee class, max class, amount magnitude, epoch side) and (instruction, fee on in/out, partial)".into();
     rep.assumptions = vec!["spl-token-2022 8.0.1's TransferFee::calculate_fee / get_epoch_fee are the ground truth for what the token program withholds".into(), "reposition and two-hop on fee mints are covered through C17 / C12 / C18, not here".into()];
     let n = tier.pick(1_500_000, 150_000_000);
     let mut acc = function_level(seed, n);
@@ -392,5 +409,6 @@ pub fn run(tier: Tier, seed: u64) -> i32 {
     rep.floor("partial_fills_on_fee_pools", 100);
     rep.floor("fee_pool_liquidity_ix", 1500);
     rep.floor("minimum_probes", 50);
+    rep.floor("swap_threshold_probes", 200);
     rep.finish()
 }
